@@ -19,7 +19,7 @@ am = assert_overlay()
 Box = am.Box
 
 chk = Check('C01', 'model_checking',
-            'BFS over histories of Box definition operations (5 parameter sets x ctor/set/direct '
+            'BFS over histories of Box definition operations (5 parameter sets x ctor/set (thorough: + the direct setters) '
             'x cell menu x origin menu, vects=, origin=, observe) on one live Box; a state is '
             'non-trivial/distinct by its model state (cell, orientation, origin, reciprocal-cache flag); '
             'every transition checks lengths/angles/volume, read-back through all parameter sets, '
@@ -58,7 +58,7 @@ def _cells():
     cells.append(np.array([[5.0, 0, 0], [-1.5, 4.0, 0], [0.7, -1.1, 3.0]]))     # negative tilts
     cells.append(1e-3 * chol_from_params(3.7, 4.1, 5.9, 81, 97, 112))            # tiny
     cells.append(1e4 * chol_from_params(3.7, 4.1, 5.9, 81, 97, 112))             # huge
-    cells.append(1e-10 * chol_from_params(3.7, 4.1, 5.9, 81, 97, 112))           # lengths held in metres
+    cells.append(1e-10 * chol_from_params(3.7, 4.1, 5.9, 81, 97, 112) @ rot([1, 2, 3], 37.0).T)   # lengths held in metres, not LAMMPS-normal
     cells.append(np.array([[4.0, 0, 0], [0, 2.0, 0], [0, 0, 8.0]]))             # power of two
     cells.append(np.eye(3))                                                      # default unit box
     cells.append(chol_from_params(3.7, 4.1, 5.9, 81, 97, 112) @ rot([1, 2, 3], 37.0).T)  # rotated, not LAMMPS
@@ -130,6 +130,8 @@ def all_ops():
                 for form in FORMS:
                     if pset == 'vects' and form == 'direct':
                         continue
+                    if not THOROUGH and (form == 'direct' or (oi == 2 and ci >= 9)):
+                        continue      # quick: `set` dispatches to the direct setters; third origin with the family cells only
                     ops.append({'op': 'define', 'form': form, 'pset': pset, 'cell': ci, 'origin': oi})
         if np.abs(v).max() >= 1e-6:     # (a metre-scale cell under an angstrom-scale origin cannot be held by lo/hi bounds)
             ops.append({'op': 'vects=', 'cell': ci})
@@ -396,6 +398,10 @@ def check(hist, st):
 
 
 def ops(st):
+    if np.abs(st.mv).max() < 1e-6:
+        # a metre-scale cell is left only through a full definition (which also sets an origin of the right scale);
+        # `vects=` would keep the metre-scale origin under an angstrom-scale cell and multiply the states for no gain
+        return [o for o in OPS if o['op'] != 'vects=']
     return OPS
 
 
